@@ -38,16 +38,32 @@ pub enum Tamper {
     FuturePlus1,
     FutureExact,
     FutureMinus1,
+    /// honest entry with a timestamp far beyond the bound (wrap-around edges of 64-bit arithmetic)
+    FutureFar(u8),
     /// honestly signed but malformed emptiness
     EmptyHashWithLen,
     HashWithZeroLen,
 }
 
-pub const TAMPERS: [Tamper; 17] = [
+/// timestamps far in the future: edges at which `timestamp - now` or `now + bound` computed in
+/// 64-bit (signed or unsigned) arithmetic would wrap
+pub const FAR: [u64; 8] = [
+    u64::MAX,
+    u64::MAX - 1,
+    1 << 63,
+    (1 << 63) - 1,
+    NOW + (1 << 63),
+    NOW + (1 << 63) - 1,
+    NOW + 365 * 24 * 3600 * 1_000_000,
+    u64::MAX - SHIFT,
+];
+
+pub const TAMPERS: [Tamper; 21] = [
     Tamper::None, Tamper::FieldTs, Tamper::FieldKey, Tamper::FieldHash, Tamper::FieldLen, Tamper::FieldAuthor,
     Tamper::ForeignDocument, Tamper::WrongNamespaceKey, Tamper::WrongAuthorKey, Tamper::SigSwap,
     Tamper::SigFromOtherEntry, Tamper::InvalidAuthorPoint, Tamper::FuturePlus1, Tamper::FutureExact,
     Tamper::FutureMinus1, Tamper::EmptyHashWithLen, Tamper::HashWithZeroLen,
+    Tamper::FutureFar(0), Tamper::FutureFar(2), Tamper::FutureFar(4), Tamper::FutureFar(6),
 ];
 
 #[derive(Clone, Debug, Serialize, Deserialize)]
@@ -150,6 +166,7 @@ impl C03 {
             Tamper::FuturePlus1 => with(make_entry(ns, author, key, c, NOW + SHIFT + 1), true, true),
             Tamper::FutureExact => with(make_entry(ns, author, key, c, NOW + SHIFT), true, true),
             Tamper::FutureMinus1 => with(make_entry(ns, author, key, c, NOW + SHIFT - 1), true, true),
+            Tamper::FutureFar(i) => with(make_entry(ns, author, key, c, FAR[i as usize % FAR.len()]), true, true),
             Tamper::EmptyHashWithLen => with(SignedEntry::from_parts(ns, author, key, rec(iroh_blobs::Hash::EMPTY, 5, ts)), true, true),
             Tamper::HashWithZeroLen => with(SignedEntry::from_parts(ns, author, key, rec(content(0).0, 0, ts)), true, true),
         }
@@ -173,7 +190,7 @@ impl Property for C03 {
         "C03"
     }
     fn rule(&self) -> String {
-        "a replica state of 0-6 valid entries, then 1-4 attacks: a validly signed entry or one of 16 tamperings (single field altered after signing, signatures swapped or taken from another entry, foreign document, wrong namespace/author key, non-curve-point author id, timestamps at the future bound -1/0/+1, the two malformed emptiness combinations), offered directly and at every position of a crafted message among 0-3 valid entries, in parts with have_local true/false, one or two parts; non-trivial = an attack with a tampering other than None; distinct = distinct operation lists".into()
+        "a replica state of 0-6 valid entries, then 1-4 attacks: a validly signed entry or one of 16 tamperings (single field altered after signing, signatures swapped or taken from another entry, foreign document, wrong namespace/author key, non-curve-point author id, timestamps at the future bound -1/0/+1 and far beyond it (2^63, 2^64-1, now+2^63 and neighbours, now + one year), the two malformed emptiness combinations), offered directly and at every position of a crafted message among 0-3 valid entries, in parts with have_local true/false, one or two parts; non-trivial = an attack with a tampering other than None; distinct = distinct operation lists".into()
     }
     fn corpus(&self) -> Vec<(String, Vec<Op>)> {
         let atk = |t: Tamper, pos: usize, n_valid: usize, have_local: bool| Op::Attack { a: 0, key: b"k".to_vec(), c: Some(0), ts: 5, tamper: t, pos, n_valid, have_local, two_parts: false };
@@ -202,7 +219,7 @@ impl Property for C03 {
                 key: gen_key(rng),
                 c: if rng.chance(1, 4) { None } else { Some(rng.below(3)) },
                 ts: *rng.pick(&[5u64, 9, 10, 11, 12]),
-                tamper: if rng.chance(1, 8) { Tamper::None } else { *rng.pick(&TAMPERS) },
+                tamper: if rng.chance(1, 8) { Tamper::None } else if rng.chance(1, 12) { Tamper::FutureFar(rng.below(FAR.len()) as u8) } else { *rng.pick(&TAMPERS) },
                 pos: rng.below(n_valid + 1),
                 n_valid,
                 have_local: rng.chance(1, 2),
